@@ -1,7 +1,7 @@
 """Which rules decide which property."""
 from __future__ import annotations
 
-from .rules import frag, c01, c02, c03, c11, c14, c18, c19, c20, cglob, cflags
+from .rules import frag, c01, c02, c03, c11, c14, c18, c19, c20, cglob, cflags, clists
 
 ASSUME = [
     'stdlib ast and re._parser front ends are correct',
@@ -244,6 +244,52 @@ PROPERTIES = {
             ('C17-R5', cflags.rule_sep_parametric, 'quick'),
             ('C02-R1', frag.rule_site_templates, 'quick'),
             ('C20-R4', c20.rule_normalise_before_expand, 'quick'),
+        ],
+    },
+    'C07': {
+        'explanation': 'static analysis of the list machinery: routing of negative patterns and forced bits (flag flow), decision '
+                       'table of is_negative, NEGATEALL default in the three sibling loops, def-use shape of include/exclude '
+                       'evaluation, nesting of the expanders, agreement of the three bracket scanners on bracket extents',
+        'assumptions': ASSUME + ['brace expansion itself (bracex) is not analysed'],
+        'rules': [
+            ('C07-R1', clists.rule_routing, 'quick'),
+            ('C03-R4', c03.rule_exclusion_dotmatch, 'quick'),
+            ('C04-R4', cglob.rule_negate_flags_normalised, 'quick'),
+            ('C07-R2', clists.rule_is_negative_table, 'quick'),
+            ('C07-R3', clists.rule_negateall_default, 'quick'),
+            ('C07-R4', clists.rule_evaluation_shape, 'quick'),
+            ('C13-R3', cglob.rule_dedupe_predicate, 'quick'),
+            ('C07-R5', clists.rule_expand_order, 'quick'),
+            ('C07-R6', clists.rule_bracket_extents, 'quick'),
+            ('C02-R4', c02.rule_bracket_abort, 'quick'),
+        ],
+    },
+    'C08': {
+        'explanation': 'static analysis of translate: capture/plain template pairs (regex equivalence), capture-group budget of every '
+                       'fragment, marker handling under self.capture, sibling summaries of translate and compile_pattern, NODIR twins',
+        'assumptions': ASSUME + ['language equality of the two regexes for every pattern needs execution and is not decided'],
+        'rules': [
+            ('C08-R1', frag.rule_capture_pairs, 'quick'),
+            ('C08-R2', frag.rule_capture_budget, 'quick'),
+            ('C04-R5', cglob.rule_globstar_capture, 'quick'),
+            ('C08-R3', clists.rule_marker_handling, 'quick'),
+            ('C08-R4', clists.rule_translate_compile_siblings, 'quick'),
+            ('C19-R2', c19.rule_cache_key, 'quick'),
+            ('C02-R7', c02.rule_nodir, 'quick'),
+            ('C01-R2', c01.rule_extglob_dispatch, 'quick'),
+        ],
+    },
+    'C09': {
+        'explanation': 'table agreement analysis: escape class vs magic tables vs the characters every parser / splitter dispatch chain '
+                       'tests (extracted from the AST), decision table of _get_magic_symbols, entry-point forwarding',
+        'assumptions': ASSUME + ['"escape(s) denotes exactly {s}" is a language statement and is not decided'],
+        'rules': [
+            ('C09-R1', clists.rule_escape_covers, 'quick'),
+            ('C18-R1', c18.rule_twin_constants, 'quick'),
+            ('C09-R2', clists.rule_magic_tables, 'quick'),
+            ('C07-R2', clists.rule_is_negative_table, 'quick'),
+            ('C09-R3', clists.rule_escape_entry_points, 'quick'),
+            ('C05-R3', cglob.rule_magic_classification, 'quick'),
         ],
     },
 }
